@@ -155,6 +155,6 @@ Definition pf_check (r : res Q) (expect : option Q) : bool :=
 (* LLE.__call__ answered from the cache with the REAL phase_fraction *)
 Definition lle_check_pf (islle : list bool) (rr : Q) (o : lle_oracle) (s : lst) (expect : lst) (raised : bool) : bool :=
   match lle_cached_phi islle rr (lo_K o) s with
-  | Ok phi => lle_check islle (mklo true (lo_K o) phi (lo_molL o) (lo_top o) (lo_mw o)) s expect raised
+  | Ok phi => lle_check islle (mklo true (lo_K o) (Qred phi) (lo_molL o) (lo_top o) (lo_mw o)) s expect raised
   | Err _ => raised
   end.
